@@ -40,6 +40,20 @@ def direct_sweep(ld, N):
                 for i in {0, k - 1, k // 2}:
                     if list(ds.shard(k, i)) != parts[i]:
                         fails.append((n, k, i, f'shard({k},{i}) != split({k})[{i}]'))
+                # the shard count / index may be any integer type (numpy scalars as produced by np.prod, len // np.int64(..), ...)
+                import numpy as np
+                for ty in (np.int64, np.int32, np.uint8, np.intp):
+                    if k > 200:
+                        continue
+                    try:
+                        alt = [list(x) for x in ds.split(ty(k))]
+                        alt_sh = list(ds.shard(ty(k), ty(k - 1)))
+                    except Exception as e:
+                        fails.append((n, k, None, f'split / shard with the valid shard count {ty.__name__}({k}) raised {type(e).__name__}: {e}'[:300]))
+                        break
+                    if alt != parts or alt_sh != parts[k - 1]:
+                        fails.append((n, k, None, f'split({ty.__name__}({k})) differs from split({k})'))
+                        break
                 # the returned list belongs to the caller: whatever the caller does with it, later calls on the same dataset object
                 # still return the k shards
                 shards.reverse()
